@@ -2,7 +2,8 @@
    conf_tags (reflection over stgutg.Conf) and wiring_mode1/2 (go/ast over main()) are REGENERATED from the
    current source on every run; documented_keys / documented_mode are the hand-written specification. *)
 From Coq Require Import List String Bool Arith.
-Require Import DriverTypes DriverConv ConfigDoc Config ConfTags MainWiring ConfigProofs Lifecycle ConfigLoops ConfigLoopsProofs.
+From Coq Require ZArith.
+Require Import DriverTypes DriverConv ConfigDoc Config ConfTags MainWiring ConfigProofs Lifecycle ConfigLoops ConfigLoopsProofs MinFn MinFnProofs.
 Import ListNotations.
 Open Scope string_scope.
 
@@ -50,3 +51,11 @@ Example c18_nonvacuous :
   get (load conf_tags file) "Mnc" = Some "93" /\ get (load conf_tags file) "K" = Some "8baf473f2f8fd09487cccbd7097c6862"
   /\ List.length (calls_of wiring_mode2 "stgutg.RegisterUE") = 1 /\ get_mode ["-t"] = 2 /\ get_mode ["-t"; "x"] = 0 /\ get_mode ["-T"] = 0.
 Proof. vm_compute. repeat split; reflexivity. Qed.
+
+(* the function those loop bounds are computed with — stgutg.Min, whose body is REGENERATED as Gen/MinFn.v — returns the
+   minimum of its arguments for all integers (no arithmetic on the arguments, hence no overflow): the meaning Z.min that
+   eval_bound gives to a BMin node is the meaning of the source *)
+Theorem c18_min_is_the_minimum :
+  go_Min_recognised = true /\ go_Min_overflow_free = true /\ forall x y : BinNums.Z, go_Min x y = BinInt.Z.min x y.
+Proof. exact (conj (proj1 go_min_translated) (conj (proj2 go_min_translated) go_min_is_min)). Qed.
+Print Assumptions c18_min_is_the_minimum.
